@@ -152,37 +152,45 @@ impl Payload for Q {
 
 // ---- wakers with identity -------------------------------------------------------
 //
-// The data pointer is the base id `w`, so `will_wake` is true iff the base ids
-// are equal. Instances made by `clone` are numbered by the scheduler.
+// Waker id `w` = (data pointer << 1) | vtable index: ids 2k and 2k+1 share their data pointer and differ only in the
+// vtable, so `Waker::will_wake` tells them apart while a comparison of the data pointers alone would not; `will_wake` is
+// true iff the ids are equal. Instances made by `clone` are numbered by the scheduler.
 
-static VT: RawWakerVTable = RawWakerVTable::new(
-    |d| {
-        if let Some(s) = sched() {
-            s.waker_clone(d as usize as u32);
-        }
-        RawWaker::new(d, &VT)
-    },
-    |d| {
-        if let Some(s) = sched() {
-            s.waker_wake(d as usize as u32, false);
-        }
-    },
-    |d| {
-        if let Some(s) = sched() {
-            s.waker_wake(d as usize as u32, true);
-        }
-    },
-    |d| {
-        if let Some(s) = sched() {
-            s.waker_drop(d as usize as u32);
-        }
-    },
-);
+macro_rules! waker_vtable {
+    ($name:ident, $bit:expr) => {
+        static $name: RawWakerVTable = RawWakerVTable::new(
+            |d| {
+                if let Some(s) = sched() {
+                    s.waker_clone(((d as usize as u32) << 1) | $bit);
+                }
+                RawWaker::new(d, &$name)
+            },
+            |d| {
+                if let Some(s) = sched() {
+                    s.waker_wake(((d as usize as u32) << 1) | $bit, false);
+                }
+            },
+            |d| {
+                if let Some(s) = sched() {
+                    s.waker_wake(((d as usize as u32) << 1) | $bit, true);
+                }
+            },
+            |d| {
+                if let Some(s) = sched() {
+                    s.waker_drop(((d as usize as u32) << 1) | $bit);
+                }
+            },
+        );
+    };
+}
+waker_vtable!(VT0, 0);
+waker_vtable!(VT1, 1);
 
 /// The waker handed to `poll`; it is the harness's own and never dropped
 /// through the vtable, only kanal's clones are instances.
 fn root_waker(id: u32) -> ManuallyDrop<Waker> {
-    ManuallyDrop::new(unsafe { Waker::from_raw(RawWaker::new(id as usize as *const (), &VT)) })
+    let vt = if id & 1 == 0 { &VT0 } else { &VT1 };
+    ManuallyDrop::new(unsafe { Waker::from_raw(RawWaker::new((id >> 1) as usize as *const (), vt)) })
 }
 
 // ---- handles ------------------------------------------------------------------------
